@@ -31,28 +31,28 @@ TB = ("Trusted: the harness (seeded scheduler, fakes, recipe interpreter, oracle
 CLAIMS = {
     # id: (engine, category, technique, text, note, design_ref)
     "C05": ("histsim", "exploration",
-            "deterministic simulation: seeded entry-point histories (compute/persist/optimize/to_delayed) with drop/gc/evict faults, pristine oracle",
-            "Seeded search over sequences of entry points applied to one program and to the collections they return, under a simulated scheduler; every entry point must give x.compute()'s value, persisted/dask-optimized collections must keep name/chunks/dtype/keys, follow-ons must agree. Sampling, not proof.",
-            TB + "Known finding F2b (dask.persist on a raw expression whose rewrite changes the root block grid) is matched by an ablation discriminator.", "DESIGN.md 5/C05"),
+            "deterministic simulation: seeded entry-point histories (compute/persist/optimize/to_delayed) with drop/gc/evict/crash faults and an in-place tail, pristine oracle",
+            "Seeded search over sequences of entry points applied to one program and to the collections they return, under a simulated scheduler (runs may be crashed before their k-th task and asked again); every entry point must give x.compute()'s value, persisted/dask-optimized collections must keep name/chunks/dtype/keys, follow-ons must agree; in the in-place tail x's memos are warmed, x is modified in place and every entry point is compared with x.compute() of the modified x. Sampling, not proof.",
+            TB + "Known findings F2b (dask.persist on a raw expression whose rewrite changes the root block grid; sole explanation only of its documented loud errors), F20 and F28 (masked sources under optimize-graph=False), each matched by precondition + ablation.", "DESIGN.md 5/C05"),
     "C06": ("histsim", "exploration",
             "deterministic simulation: seeded build/persist/drop/gc/config histories with per-process name and graph-key registries",
             "Seeded search over histories of several programs sharing subtrees; after every step all node names seen in the process must agree on (chunks, dtype), all graph keys on their values, merged computes on separate ones. Sampling, not proof.",
             TB + "Known findings F15 (Blockwise advertised chunks depend on the unify policy while the name does not), F2b (dask.persist on a raw expression whose rewrite changes the root grid: same key, other block shape) and F20, each matched by precondition + ablation.", "DESIGN.md 5/C06"),
     "C07": ("histsim", "exploration",
-            "deterministic simulation: seeded pickle/rebuild histories + restart into a fresh interpreter under another PYTHONHASHSEED",
-            "Seeded search over moments of serialization in a collection's life; rebuilt-in-process, rebuilt-in-fresh-interpreter and unpickled collections must agree on name, keys, chunks, dtype, Frisky output keys (and optimized graph keys for rebuilds) and values. Sampling, not proof.",
-            TB + "lock=True sources, untokenizable sources and parents of random arrays are compared per instance only, as the statement exempts them. Known finding F12 (masked source of any dtype + unpickled copy alive + in-process rebuild: other name or other optimized graph keys), matched by precondition + ablation.", "DESIGN.md 5/C07"),
+            "deterministic simulation: seeded pickle/rebuild histories + restart into a fresh interpreter under another PYTHONHASHSEED and another receiver-side configuration",
+            "Seeded search over moments of serialization in a collection's life (including 'lazy' builds the harness never looks at before they are dumped); rebuilt-in-process, rebuilt-in-fresh-interpreter and unpickled collections (loaded under the sender's or another configuration) must agree on name, keys, chunks, dtype, Frisky output keys (and optimized graph keys for rebuilds) and values. Sampling, not proof.",
+            TB + "lock=True sources, untokenizable sources and parents of random arrays are compared per instance only, as the statement exempts them. Known findings F12 (masked source + unpickled copy alive + in-process rebuild) and F15 (Blockwise chunks resolved under the receiver's unify policy when pickled before first read), matched by precondition + ablation.", "DESIGN.md 5/C07"),
     "C09": ("histsim", "exploration",
-            "deterministic simulation: seeded interleavings of build/compute with planner-config flips, drops, GC and cache evictions against a pristine oracle",
-            "Seeded search over histories and configuration flips; every compute must equal the value of the same program built alone under default configuration after a state reset. Sampling, not proof.",
-            TB, "DESIGN.md 5/C09"),
+            "deterministic simulation: seeded interleavings of build/compute with planner-config flips, drops, GC, cache evictions and crashed runs against a pristine oracle",
+            "Seeded search over histories and configuration flips (plus two structured scenarios: layout drift under unify flips, reduction trees sized at construction over finer optimized grids); every compute must equal the value of the same program built alone under default configuration after a state reset; an operation that raises is reported only if the same kind of operation works on the same program with no history. Sampling, not proof.",
+            TB + "Known findings F19 (narrowed by a census of the window-reduction family), F20, F28, each matched by precondition + ablation.", "DESIGN.md 5/C09"),
     "C10": ("schedsim", "exploration",
-            "deterministic simulation: seeded task scheduler over the real graph (orders, release, copy-edges) with dependency/source fingerprint monitors",
+            "deterministic simulation: seeded task scheduler over the real graph (orders, release, copy-edges, line-granular pre-emption of 2-3 in-flight tasks) with dependency/source fingerprint monitors",
             "Seeded search over topological orders of the real task graphs of generated programs; the same graph object must give bit-identical outputs under every order, no task may change a dependency's fingerprint, user sources must be unchanged. Sampling, not proof.",
-            TB + "Thread interleavings are modelled at task granularity (one task at a time; the dependency-fingerprint monitor covers writes into shared blocks).", "DESIGN.md 5/C10"),
+            TB + "Thread interleavings: baton-passed real threads pre-empted at Python line events inside dask_array (NumPy C calls atomic).", "DESIGN.md 5/C10"),
     "C11": ("histsim", "exploration",
             "deterministic simulation: seeded derive -> mutate -> compute histories with a NumPy model of the assignment on dask's own pre-value",
-            "Seeded search over sequences of derivations, in-place assignments (all key kinds), ufunc out= and compute_chunk_sizes interleaved with computes and gc/evict/pickle faults; x must equal the NumPy assignment, every other collection its earlier value, sources untouched. Sampling, not proof.",
+            "Seeded search over sequences of derivations, in-place assignments (all key kinds, also through live dask index/mask/value collections that are modified in place afterwards), ufunc out= and compute_chunk_sizes interleaved with computes and gc/evict/pickle faults; the target must equal the NumPy assignment, every other collection (earlier targets included) its earlier value, sources untouched. Sampling, not proof.",
             TB + "Non-elementwise user block functions are excluded from C11 programs (see DESIGN: unclaimed C01/C02 observation).", "DESIGN.md 5/C11"),
     "C17": ("histsim", "exploration",
             "deterministic simulation: seeded policy/limit flips around the shared lowering cache; layout clauses checked at every materialisation",
@@ -60,27 +60,27 @@ CLAIMS = {
             TB + "Only Elemwise root/nested pairs whose raw<->lowered correspondence is positional are checked; others are skipped and counted. Known finding F19 (expression constructed under one unify-chunks policy/limit and materialised under another) matched by a fresh-rebuild ablation that keeps the flips and the lowering cache.", "DESIGN.md 5/C17"),
     "C21": ("schedsim", "exploration",
             "deterministic simulation: records executor over every walk order of the shared seen set, seeded execution orders",
-            "For groups of 1-4 collections every permutation of walk order (exhaustive per group) and both protocols; records must be well-formed, complete, define every output key and execute to the dask graph's block values. Groups and programs are sampled.",
+            "For groups of 1-4 collections every permutation of walk order (exhaustive per group) and both protocols, optionally after a first submission and an in-place update of a member; records must be well-formed, complete, define every output key, hold the collection's i-th block under its i-th output key and execute to the dask graph's block values. Groups and programs are sampled.",
             TB + "No _rust extension here: every node takes the pure-Python record paths (GraphRecordsLayer, FusedBlockwiseLayer fast/slow records); binary chunks are out of reach.", "DESIGN.md 5/C21"),
     "C23": ("histsim", "exploration",
             "deterministic simulation: seeded histories over random arrays (repeated computes, optimize, pickle, drop+rebuild) with a from_array(value(R)) substitution oracle",
-            "Seeded search over histories of random arrays and derived programs; same bits on every compute, derived programs computed from that realization, rebuild equals the pristine realization. Sampling, not proof.",
+            "Seeded search over histories of random arrays (five bit generator kinds, RandomState, module-level state; twins with equal seeds) and derived programs; same bits on every compute, derived programs computed from that realization, rebuild equals the pristine realization. Sampling, not proof.",
             TB, "DESIGN.md 5/C23"),
     "C24": ("schedsim", "fault_enumeration",
-            "deterministic simulation with fault injection: recording source/lock fakes, seeded schedules, read fault at enumerated request positions",
-            "Per generated read program: fault-free runs under several schedules (values == NumPy indexing, every request in bounds and under the user's lock, lock free at the end), then an injected read error at request positions (all of them in the thorough tier) with a correct fault-free retry.",
+            "deterministic simulation with fault injection: recording (eager and lazy) source/lock fakes, seeded schedules incl. pre-emptive ones with lock contention, read fault at enumerated request positions",
+            "Per generated read program: fault-free runs under several schedules, one of them pre-emptive with 2-3 reads in flight contending for the lock (values == NumPy indexing, every request in bounds and under the user's lock -- for lazy sources at the moment the selection is materialised --, lock free at the end, no deadlock), then an injected read error at request positions (all of them in the thorough tier; every other one while other reads are in flight) with a correct fault-free retry.",
             TB + "ndarray sources are sliced by NumPy itself (bounds unobservable): values only.", "DESIGN.md 5/C24"),
     "C25": ("schedsim", "fault_enumeration",
-            "deterministic simulation with fault injection: recording target/lock fakes with per-cell write counters, seeded schedules, write fault at enumerated positions",
-            "Per generated store: fault-free runs under several schedules (target == model, region cells written exactly once, others never, lock discipline), then an injected write error at write positions (all in thorough) and a fault-free re-run; npy-stack round trips with the k-th np.save failing.",
+            "deterministic simulation with fault injection: recording target/lock fakes with per-cell write counters (incl. shared read-modify-write targets), seeded schedules incl. pre-emptive ones, write fault at enumerated positions",
+            "Per generated store: fault-free runs under several schedules, pre-emptive ones with 2-3 writes in flight (target == model, region cells written exactly once, others never, lock discipline also for the lock store makes for lock=True, no lost update on a shared read-modify-write target), then an injected write error at write positions (all in thorough) and a fault-free re-run; npy-stack round trips with the k-th np.save failing.",
             TB + "Negative region bounds are refused by store (NotImplementedError) and excluded.", "DESIGN.md 5/C25"),
     "C26": ("importsim", "exploration",
             "deterministic simulation: seeded import/registration histories, one fresh interpreter each, every dask_array module imported in every history",
-            "Each history imports every dask_array module in a seeded order with xarray, cache_clear and register() at seeded positions; a one-boolean model of xarray's 'dask' chunk manager is checked after every step; after register() a fixed set of xarray computations must match NumPy-backed ones.",
+            "Each history starts one fresh interpreter under a seeded start configuration (DASK_* environment) and imports every dask_array module in a seeded order with xarray, cache_clear and register() at seeded positions; a one-boolean model of xarray's 'dask' chunk manager is checked after every step; after register() a fixed set of xarray computations must match NumPy-backed ones.",
             "Trusted: xarray 2026.7.0's registry semantics; ImportError for an absent optional dependency is skipped. Orders are sampled (153! permutations).", "DESIGN.md 5/C26"),
     "C29": ("histsim", "exploration",
             "deterministic simulation: seeded inspect-only histories over recording sources and user functions; temporal invariant 'no non-empty request outside execution'",
-            "Seeded search over long inspect-only histories (all accessors, simplify, optimize, graph construction, pickle, freeze_chunks) on programs over recording fakes; outside an execute phase only empty selections / empty blocks may be seen; a final compute shows the history does read when executed.",
+            "Seeded search over long inspect-only histories (all accessors, simplify, optimize, graph construction, pickle, freeze_chunks) on programs over recording fakes (sources entering through from_array, with asarray=False, or as raw operands); outside an execute phase only empty selections / empty blocks may be seen; a final compute shows the history does read when executed.",
             TB + "0-d metas necessarily have one element and are not counted as non-empty blocks.", "DESIGN.md 5/C29"),
 }
 
